@@ -35,7 +35,7 @@ PROPERTIES = {
         "assumptions": ["R2 sequential semantics"],
     },
     "C04": {
-        "units": ["bar_draw", "c07_position"],
+        "units": ["bar_draw", "c07_position", "multi_state"],
         "level": "proof",
         "explanation": "BarState::finish_using_style verified: status finished, position == length for the finish variants and unchanged for the abandon variants, message set when supplied, and one forced draw whose frame is the rendering of the final state (nothing for the clearing variant) reaches draw_to_term regardless of the limiter (drawable grants every forced request on a visible target without touching the limiter); dropping a finished bar performs no draw; dropping an unfinished one finishes it with on_finish.",
         "level_text": "Deductive proof (Verus) over all bar states, limiter states and finish variants.",
@@ -124,7 +124,7 @@ PROPERTIES = {
         "assumptions": ["cell widths 1..2 and 2..5 progress characters in the Kani fixture", "IEEE-754 semantics as implemented by CBMC"],
     },
     "C19": {
-        "units": ["draw_to_term"],
+        "units": ["draw_to_term", "multi_state"],
         "kani_thorough": [
             {"harness": "c19_wrapped_height_bounded", "timeout": 900, "complete": False, "bound": "cols <= 4096, 1 <= width <= 256",
              "obligation": "kani/draw_target::LineType::wrapped_height",
